@@ -31,6 +31,14 @@ def queries(tier):
         mods = [None] if tier != 'quick' else [None]
         q('equal=>hash[%s]' % k, {'CHECK': 2, 'AKIND': KINDS[k], 'BKIND': KINDS[k], 'MODCONST': '((1L<<61)-1)' if k != 'big2' else 8}, backends=pf)
     q('equal=>hash[big1,big2]', {'CHECK': 2, 'AKIND': KINDS['big1'], 'BKIND': KINDS['big2']}, backends=pf)
+    # hash tables as finite maps: one insertion, then lookup / second insertion / deletion through another key object
+    # (thorough tier only: with two hash chains per lookup no query of this group reached a verdict within the quick cap)
+    for op, nm in (() if tier == 'quick' else ((1, 'insert A, lookup B, insert B'), (2, 'insert A, lookup B, delete B, lookup A'))):
+        for ak, bk in ((1, 1), (1, 2), (2, 1), (2, 2)):
+            qs.append(Query(name='hash-table[%s; A=big%d, B=big%d free words]' % (nm, ak, bk), harness='C15_table.c', units=UNITS, unit_defs=UD,
+                            defs={'OP': op, 'AK': ak, 'BK': bk, 'NBUCKETS': 8 if tier == 'quick' else 2}, unwind=10, unwindset=dict(US, **{'strcmp.0': 12, 'mk_table.0': 12}),
+                            remove_bodies=EXC, cuts=['sexp_apply', 'sexp_eval_string', 'sexp_print_exception_op'], cap=cap, backends=pf,
+                            functions=['sexp_hash_table_cell', 'sexp_hash_table_delete', 'sexp_get_bucket', 'sexp_scan_bucket', 'sexp_regrow_hash_table', 'sexp_hash', 'sexp_equalp_op']))
     return qs
 
 
@@ -43,4 +51,4 @@ def bounds(tier):
 ASSUMPTIONS = R_ASSUME + ['exception constructors replaced by harness/exc_models.c (not reached by these harnesses)',
                           'context built by hand: globals vector + type table copied from the real static _sexp_type_specs (kitfull.c)']
 OUTSIDE = ['user-supplied hash/equality closures (call the VM)', '(chibi equiv) cycle-safe equal? and SRFI 125/128 wrappers (Scheme)',
-           'nesting deeper than 1, containers longer than 2, strings longer than 2 bytes', 'hash-table cell/delete/regrow step (thorough tier extension)']
+           'nesting deeper than 1, containers longer than 2, strings longer than 2 bytes', 'hash-table histories longer than insert/lookup/insert or insert/lookup/delete/lookup; keys other than bignums in the table step']
